@@ -61,6 +61,7 @@ class K3Adapter(object):
             steps_compared=int(r['stats']['compared']),
             steps_skipped_outside_scope=int(r['stats']['skipped']),
             corpus_cases=int(r['stats']['corpus_cases']),
+            exhaustive_short_sequences=int(r['stats'].get('exhaustive_short_sequences', 0)),
             comparison=r['tally'].as_dict(),
             input_distribution={k: int(v) for k, v in sorted(hist.items())},
         )
@@ -77,7 +78,7 @@ class K3Adapter(object):
 
     def run(self, prop, tier, seed):
         import k3
-        r = k3.run(prop, tier, seed, self.N[tier], corpus=load_corpus(prop) + load_corpus('K3'))
+        r = k3.run(prop, tier, seed, self.N[tier], corpus=load_corpus(prop) + load_corpus('K3'), exhaustive=(tier == 'thorough'))
         return self._result(prop, r, tier)
 
     def replay(self, prop, payload):
